@@ -139,8 +139,59 @@ Theorem C12_interleaved_output_ellipsis_only_refuted :
 Proof. exact interleaved_output_ellipsis_only_refuted. Qed.
 Print Assumptions C12_interleaved_output_ellipsis_only_refuted.
 
-(* --- model = NumpySpec: bounded exhaustive form (partial) ------------------------------------
-   FULL STATEMENTS (not proved for unbounded inputs):
+(* --- model = NumpySpec, GENERAL (string form) ----------------------------------------------
+   For EVERY string eq and EVERY list of shapes: if numpy's rules (np_parse) accept the call with
+   parse (nops, nout), then the front end of the code as it stands (blanks removed, output-only
+   ellipsis handled: fix flags true) parses it to exactly the same terms and output, the
+   specification's broadcast label LB k renamed to the k-th-from-the-right of the model's
+   ellipsis symbols E.  Covers any number of operands, any labels, ellipses anywhere with any
+   broadcast rank (right alignment), explicit and implicit output, blanks. *)
+Theorem C12_ellipsis_expansion_matches_numpy : forall eq shapes nops nout,
+  np_parse eq shapes = Some (nops, nout) ->
+  let E := model_ellipses_inds (strip_spaces eq) shapes in
+  parse_equation_ellipses_v true (strip_spaces eq) shapes = Some (map (map (rho E)) nops, map (rho E) nout).
+Proof. exact string_matches_numpy. Qed.
+Print Assumptions C12_ellipsis_expansion_matches_numpy.
+
+(* the same in the vocabulary of the check (K3): the verdict computed for a call is `Some true`
+   exactly when numpy accepts it, never `Some false` *)
+Theorem C12_string_form_agrees_with_numpy : forall fx eq shapes,
+  fx_spaces fx = true -> fx_outell fx = true ->
+  agrees_args_v fx (AStr eq shapes) = match np_parse eq shapes with Some _ => Some true | None => None end.
+Proof. exact string_agrees_with_numpy. Qed.
+Print Assumptions C12_string_form_agrees_with_numpy.
+
+(* ... and the renaming is injective on the labels of the call: the ellipsis symbols are pairwise
+   distinct and occur in no input term, so "equal up to rho" is "equal up to an injective renaming" *)
+Theorem C12_ellipsis_symbols_disjoint : forall eq shapes,
+  let E := model_ellipses_inds eq shapes in
+  NoDup E /\ forall s, In s E -> ~ In s (concat (split_char c_comma (hd [] (split_arrow eq)))).
+Proof. exact model_ellipses_inds_fresh. Qed.
+Print Assumptions C12_ellipsis_symbols_disjoint.
+
+Theorem C12_rho_injective : forall used E, NoDup E -> (forall s, In s E -> ~ In s used) ->
+  forall l1 l2, label_in used E l1 -> label_in used E l2 -> rho E l1 = rho E l2 -> l1 = l2.
+Proof. exact rho_injective. Qed.
+Print Assumptions C12_rho_injective.
+
+(* (1) implicit output: for every rendered left-hand side (letters, ellipses, commas),
+   find_output_str is numpy's rule -- the letters occurring exactly once, sorted by code point
+   (the dots never qualify); parse_equation_ellipses puts the ellipsis symbols in front of it *)
+Theorem C12_implicit_output_matches_numpy : forall lhs,
+  Forall tok_ok lhs -> Forall (fun t => match t with TArrow => False | _ => True end) lhs ->
+  find_output_str (unlex lhs) = once_sorted (letters_of lhs).
+Proof. exact find_output_str_unlex. Qed.
+Print Assumptions C12_implicit_output_matches_numpy.
+
+(* numpy's lexer is sound for the model: what numpy tokenises is, blanks removed, the rendering
+   of the tokens -- this is what lets the theorems above speak about ALL strings *)
+Theorem C12_lexer_sound : forall eq ts, np_lex eq = Some ts ->
+  strip_spaces eq = unlex ts /\ Forall tok_ok ts.
+Proof. exact np_lex_sound_all. Qed.
+Print Assumptions C12_lexer_sound.
+
+(* --- model = NumpySpec: bounded exhaustive form, kept as independent evidence (vm_compute) ----
+   FULL STATEMENTS (now proved in general above for the string form; see below for interleaved):
      ellipsis_expansion_matches_numpy / implicit_output_matches_numpy / interleaved_matches_numpy:
        forall well-formed call a (letters only, no blanks, not output-only-ellipsis),
          agrees_args_v fx a <> Some false
